@@ -22,6 +22,8 @@ Decided (structural necessary conditions, all paths of the helper set in crates/
  * raw-arith     : no unchecked arithmetic / narrowing cast / wrapping|saturating|unwrap call in the helper set except
                    the tabled sites.
 """
+import json
+import os
 import re
 
 from .. import analyses as A
@@ -544,15 +546,10 @@ def _pow(ctx, prog):
         ctx.ob("pow-int:Fixed::checked_pow", ok, "Fixed::checked_pow wraps checked_pow_fixed(self.0, exponent.0)? (base, exponent order)", where=f.where())
 
 
-# tabled raw sites: (function regex, op, operand-a regex, operand-b regex, reason)
-RAW_TABLE = [
-    (r"<u64 as gmsol_model::num::MulDiv>::checked_mul_div(_ceil)?$", "Mul", r"^\((self|numerator) as u128\)$", r"^\((self|numerator) as u128\)$",
-     "product of two u64 values widened to u128 cannot overflow"),
-    (r"<u64 as gmsol_model::num::MulDiv>::checked_mul_div$", "Div", r"MulWithOverflow", r"^\(denominator as u128\)$",
-     "denominator != 0 dominates (muldiv-div-guarded)"),
-    (r"<u(64|128) as gmsol_model::fixed::FixedPointOps<DECIMALS>>::checked_pow_fixed$", "Rem", r"^exponent$", r"^FixedPointOps::UNIT$",
-     "remainder by the associated constant UNIT = 10^DECIMALS (non-zero by const evaluation)"),
-]
+# tabled raw sites live in tables/C01.json (function regex, op, operand provenance regexes, one reason each)
+_TABLE = json.load(open(os.path.join(os.path.dirname(os.path.dirname(os.path.dirname(os.path.abspath(__file__)))), "tables", "C01.json")))
+RAW_TABLE = [(t["fn"], t["op"], t["a"], t["b"], t["reason"]) for t in _TABLE["raw_sites"]]
+OP_CALLS = [(t["fn"], t["callee"]) for t in _TABLE["operator_calls"]]
 
 
 def _stable_key(f):
@@ -609,7 +606,7 @@ def _raw(ctx, prog):
                     bad.append("call %s" % c.short)
                 elif c.short in ("Add::add", "Sub::sub", "Mul::mul", "Neg::neg", "Rem::rem", "Shl::shl", "Shr::shr"):
                     # operator on a non-primitive: only the U256 product of two widened u128 is tabled (shape checked by muldiv-shape)
-                    if not (re.search(r"impl gmsol_model::num::MulDiv for u128>::checked_mul_div(_ceil)?$", f.id) and c.short == "Mul::mul"):
+                    if not any(re.search(fr, f.id) and c.short == cal for fr, cal in OP_CALLS):
                         bad.append("operator call %s" % c.short)
         ctx.ob("raw-arith:" + _stable_key(f), not bad,
                "%s: %s" % (_stable_key(f), "only tabled unchecked operations (%d raw site(s))" % raw if not bad else "UNTABLED unchecked operation(s): %s" % bad),
